@@ -311,6 +311,7 @@ func hasHashMethod(typ *types.Named) bool {
 }
 
 func (g *gen) field(fieldName string, fieldType types.Type) (string, error) {
+	fieldType = types.Unalias(fieldType)
 	switch typ := fieldType.Underlying().(type) {
 	case *types.Basic:
 		if _, named := fieldType.(*types.Basic); !named {
@@ -346,7 +347,7 @@ func (g *gen) field(fieldName string, fieldType types.Type) (string, error) {
 			return fmt.Sprintf("%s(%s)", g.GetFuncName(fieldType), fieldName), nil
 		}
 	case *types.Pointer:
-		ref := typ.Elem()
+		ref := types.Unalias(typ.Elem())
 		if named, ok := ref.(*types.Named); ok {
 			if hasHashMethod(named) {
 				return fmt.Sprintf("%s.Hash()", wrap(fieldName)), nil
